@@ -59,6 +59,7 @@ type Tokenizer struct {
 	str              string
 	isLast           bool
 	last             rune
+	lastStr          string
 	tok              chan Token
 	tokenAvail       int
 	token            [2]Token
@@ -331,7 +332,13 @@ func (t *Tokenizer) parseOperator() (string, bool) {
 
 func (t *Tokenizer) peek(skipComment bool) rune {
 	if t.isLast {
-		return t.last
+		if !(skipComment && t.allowComments && t.last == '/') {
+			return t.last
+		}
+		// The cached '/' was read as look-ahead while comment detection
+		// was off. Put it back to check whether it starts a comment.
+		t.str = t.lastStr
+		t.isLast = false
 	}
 	if len(t.str) == 0 {
 		t.last = EOF
@@ -341,7 +348,7 @@ func (t *Tokenizer) peek(skipComment bool) rune {
 	t.last, size = utf8.DecodeRuneInString(t.str)
 
 	if t.allowComments && skipComment {
-		if t.last == '/' && len(t.str) > size {
+		for t.last == '/' && len(t.str) > size {
 			s, l := utf8.DecodeRuneInString(t.str[size:])
 			if s == '/' {
 				t.str = t.str[size+l:]
@@ -383,6 +390,8 @@ func (t *Tokenizer) peek(skipComment bool) rune {
 					}
 				}
 				t.last, size = utf8.DecodeRuneInString(t.str)
+			} else {
+				break
 			}
 		}
 	}
@@ -401,6 +410,7 @@ func (t *Tokenizer) peek(skipComment bool) rune {
 	}
 
 	t.isLast = true
+	t.lastStr = t.str
 	t.str = t.str[size:]
 	return t.last
 }
@@ -423,7 +433,7 @@ func (t *Tokenizer) next(skipComment bool) rune {
 }
 
 func (t *Tokenizer) read(valid func(c rune) bool) string {
-	return t.readSkip(valid, true)
+	return t.readSkip(valid, false)
 }
 
 func (t *Tokenizer) readSkip(valid func(c rune) bool, skipComment bool) string {
